@@ -432,12 +432,17 @@ func timeFitsDb(t time.Time) bool {
 }
 
 func (sdb *DbSqlite) nodePoints(id string, points data.Points) error {
-	for _, p := range points {
+	for i, p := range points {
 		if math.IsNaN(p.Value) {
 			return fmt.Errorf("Error: point %v value is not a number", p.Type)
 		}
 		if !timeFitsDb(p.Time) {
 			return fmt.Errorf("Error: point %v time is out of range", p.Type)
+		}
+		if p.Value == 0 {
+			// SQLite keeps a REAL zero as the integer 0: negative zero comes back as
+			// positive zero, so that is what goes into the checksums too
+			points[i].Value = 0
 		}
 	}
 
@@ -581,12 +586,17 @@ NextPin:
 }
 
 func (sdb *DbSqlite) edgePoints(nodeID, parentID string, points data.Points) error {
-	for _, p := range points {
+	for i, p := range points {
 		if math.IsNaN(p.Value) {
 			return fmt.Errorf("Error: point %v value is not a number", p.Type)
 		}
 		if !timeFitsDb(p.Time) {
 			return fmt.Errorf("Error: point %v time is out of range", p.Type)
+		}
+		if p.Value == 0 {
+			// SQLite keeps a REAL zero as the integer 0: negative zero comes back as
+			// positive zero, so that is what goes into the checksums too
+			points[i].Value = 0
 		}
 	}
 
